@@ -230,9 +230,12 @@ def _len_unknown_path(p, fn):
     for cond, truth, kind in p.pc:
         if kind == "branch" and cond[0] in ("tag", "tagflip"):
             a, flip = sym.tag_atom(cond)
-            if a == ("tag", ("param", 2, fn.locals[2]["ty"])):
+            x = norm(a[1]) if a[0] == "tag" else None
+            if x is not None and x[0] == "init" and x[1][0] == "P":
+                x = norm(x[1][1])          # the Option matched in place (`let Some(n) = len else ..`) rather than by value (`len.ok_or(..)?`)
+            if x == ("param", 2, fn.locals[2]["ty"]):
                 v = p.tagfacts.get(a)
-                return v == 0  # Option::None
+                return v == 0 or (isinstance(v, tuple) and v[0] == "not" and set(v[1]) == {1})  # Option::None (`0`, or "not Some")
     return False
 
 
